@@ -61,6 +61,59 @@ def e_JoinedStr(self, st, node):
     return [(st, "val", "".join(str(p) for p in parts))]
 
 
+def _local_names(fnode):
+    """names bound in the body of a function (not in nested scopes), minus global / nonlocal declarations"""
+    cached = getattr(fnode, "_locals", None)
+    if cached is not None:
+        return cached
+    bound, declared = set(), set()
+
+    def targets(t):
+        if isinstance(t, ast.Name):
+            bound.add(t.id)
+        elif isinstance(t, (ast.Tuple, ast.List)):
+            for e in t.elts:
+                targets(e)
+        elif isinstance(t, ast.Starred):
+            targets(t.value)
+
+    def walk(n):
+        for c in ast.iter_child_nodes(n):
+            if isinstance(c, (ast.FunctionDef, ast.AsyncFunctionDef, ast.ClassDef)):
+                bound.add(c.name)
+                continue
+            if isinstance(c, (ast.Lambda, ast.ListComp, ast.SetComp, ast.DictComp, ast.GeneratorExp)):
+                continue
+            if isinstance(c, (ast.Global, ast.Nonlocal)):
+                declared.update(c.names)
+            elif isinstance(c, ast.Assign):
+                for t in c.targets:
+                    targets(t)
+            elif isinstance(c, (ast.AugAssign, ast.AnnAssign)):
+                targets(c.target)
+            elif isinstance(c, (ast.For, ast.AsyncFor)):
+                targets(c.target)
+            elif isinstance(c, (ast.With, ast.AsyncWith)):
+                for it_ in c.items:
+                    if it_.optional_vars is not None:
+                        targets(it_.optional_vars)
+            elif isinstance(c, ast.ExceptHandler) and c.name:
+                bound.add(c.name)
+            elif isinstance(c, (ast.Import, ast.ImportFrom)):
+                for a in c.names:
+                    bound.add((a.asname or a.name).split(".")[0])
+            elif isinstance(c, ast.NamedExpr):
+                targets(c.target)
+            walk(c)
+    if isinstance(fnode, (ast.FunctionDef, ast.AsyncFunctionDef)):
+        walk(fnode)
+        a = fnode.args
+        for p in a.posonlyargs + a.args + a.kwonlyargs + ([a.vararg] if a.vararg else []) + ([a.kwarg] if a.kwarg else []):
+            bound.discard(p.arg)        # parameters are always bound
+    fnode._locals = frozenset(bound - declared)
+    return fnode._locals
+
+
 def e_Name(self, st, node):
     name = node.id
     fr = st.frames[-1]
@@ -69,6 +122,11 @@ def e_Name(self, st, node):
     # closures: search enclosing frames of nested functions (not used by targets)
     func = self.cur_func
     mod = func.module if func else None
+    fnode = getattr(func, "node", None)
+    if fnode is not None and fr.get("@body") == id(fnode) and name in _local_names(fnode):
+        # a local of this function that no assignment has reached on this path
+        return self.raise_exc(st, "UnboundLocalError", node, "unbound-local",
+                              "local variable %r referenced before assignment" % name)
     v = self.x_global(st, mod, name, node)
     return [(st, "val", v)]
 
